@@ -257,6 +257,8 @@ def gen_thresholds(out):
     add("thr_f64_overflow", "pw(10, 309) > pw(2, 1024)", "10^309 > 2^1024: every non-zero significand with q > 308 overflows f64")
     add("thr_f64_no_early_overflow", "pw(10, 308) < pw(2, 1024) - pw(2, 970)", "1 * 10^308 is finite (the f64 limit is tight)")
     add("thr_f32_underflow", "(pw(2, 64) - 1) * pw(2, 150) < pw(10, 66)", "(2^64-1) * 10^-66 < 2^-150: q < -65 underflows f32")
+    add("thr_f32_underflow_65", "(pw(2, 64) - 1) * pw(2, 150) < pw(10, 65)", "(2^64-1) * 10^-65 < 2^-150: even q = -65 underflows f32 (the f32 limit -65 is not tight; -64 is)")
+    add("thr_f32_no_early_underflow", "pw(10, 64) < (pw(2, 64) - 1) * pw(2, 150)", "q = -64 can still be non-zero in f32")
     add("thr_f32_overflow", "pw(10, 39) > pw(2, 128)", "10^39 > 2^128: q > 38 overflows f32")
     add("thr_bell_underflow", "(pw(2, 64) - 1) * pw(2, 1075) < pw(10, 351)", "Bellerophon: exponent + 350 < 0 underflows both formats")
     add("thr_bell_overflow", "pw(10, 310) > pw(2, 1024)", "Bellerophon: large index >= 66 (q >= 310) overflows both formats")
